@@ -233,20 +233,35 @@ def configs(tier: str, seed: int) -> List[Dict[str, Any]]:
 
     def add(backend, init, actors, bound=None, sample=False):
         cid = f"{backend}/{init}/{'+'.join(actors)}" + (f"/b{bound}" if bound is not None else "")
-        out.append({"id": cid, "backend": backend, "init": init, "actors": list(actors), "bound": bound,
-                    "tier": tier, "seed": seed, "sample": sample})
+        import os as _os
 
+        out.append({"id": cid, "backend": backend, "init": init, "actors": list(actors), "bound": bound,
+                    "tier": tier, "seed": seed, "sample": sample,
+                    "max_exec": int(_os.environ["DSMC_MAX_EXEC"]) if _os.environ.get("DSMC_MAX_EXEC") else None})
+
+    light = [("createA", "createB"), ("createA", "open_or_create")]
+    heavy = [("createA_append", "createB"), ("create_none_append", "createA"), ("createA_append", "createA_append")]
     k = seed
     for init in STATES:
-        for combo in COMBOS:
+        for combo in light:
+            # existing-table states: creators only read, tiny and unbounded; fresh location: the real race
+            bound = None if (init != "absent" or tier != "quick") else 2
             if tier == "quick":
-                add(("s3", "local")[k % 2], init, combo, sample=(init == "absent" and combo == COMBOS[0]))
+                add(("s3", "local")[k % 2], init, combo, bound=bound, sample=(init == "absent" and combo == light[0]))
                 k += 1
             else:
-                add("s3", init, combo, sample=(init == "absent" and combo == COMBOS[0]))
-                add("local", init, combo)
+                add("s3", init, combo, bound=bound, sample=(init == "absent" and combo == light[0]))
+                add("local", init, combo, bound=bound)
+        for combo in heavy:
+            hb = (1 if combo == heavy[2] else 2) if tier == "quick" else (2 if combo == heavy[2] else 3)
+            if tier == "quick":
+                add(("s3", "local")[k % 2], init, combo, bound=hb)
+                k += 1
+            else:
+                add("s3", init, combo, bound=hb)
+                add("local", init, combo, bound=hb)
     if tier == "quick":
-        add("s3", "absent", ("createA_append", "createB", "open_or_create"), bound=1)
+        add("s3", "absent", ("createA_append", "createB", "open_or_create"), bound=0)
     else:
         for b in ("s3", "local"):
             for init in STATES:
